@@ -756,7 +756,8 @@ Fixpoint fs_get (f : fsmap) (i : Z) : option Z :=
   match f with [] => None | (j, c) :: r => if Z.eqb j i then Some c else fs_get r i end.
 Definition fs_del (f : fsmap) (i : Z) : fsmap := filter (fun p => negb (Z.eqb (fst p) i)) f.
 Definition fs_set (f : fsmap) (i c : Z) : fsmap := (i, c) :: fs_del f i.
-Inductive fs_op := FsWrite (i c : Z) | FsCopy (src tgt : Z) | FsDelete (i : Z).
+Inductive fs_op := FsWrite (i c : Z) | FsCopy (src tgt : Z) | FsDelete (i : Z)
+                  | FsSchedule (i : Z).   (* _schedule launches the job: no checkpoint directory is touched *)
 (* None = the call raises (FileNotFoundError / FileExistsError) *)
 Definition fs_step (f : fsmap) (o : fs_op) : option fsmap :=
   match o with
@@ -767,6 +768,7 @@ Definition fs_step (f : fsmap) (o : fs_op) : option fsmap :=
       | _, _ => None
       end
   | FsDelete i => Some (fs_del f i)
+  | FsSchedule _ => Some f
   end.
 (* replay with the directory contents observed after every call: all calls succeed and the
    listed directories hold the listed contents (None = absent) *)
